@@ -207,6 +207,19 @@ func Equal(a, b any) bool {
 
 // Diff returns a description of the first difference, or "".
 func Diff(a, b any, path string) string {
+	if na, ok := a.(json.Number); ok {
+		if nb, ok := b.(json.Number); ok && isIntLit(string(na)) && isIntLit(string(nb)) {
+			// two integer literals are compared exactly (int64 fields survive JSON untouched)
+			x, _ := new(big.Int).SetString(string(na), 10)
+			y, _ := new(big.Int).SetString(string(nb), 10)
+			if x != nil && y != nil {
+				if x.Cmp(y) != 0 {
+					return fmt.Sprintf("%s: %s vs %s", path, na, nb)
+				}
+				return ""
+			}
+		}
+	}
 	if fa, ok := Float64(a); ok {
 		fb, ok2 := Float64(b)
 		if !ok2 {
@@ -275,6 +288,21 @@ func Diff(a, b any, path string) string {
 
 var _ = num
 
+func isIntLit(s string) bool {
+	if s == "" {
+		return false
+	}
+	for i, c := range s {
+		if c == '-' && i == 0 && len(s) > 1 {
+			continue
+		}
+		if c < '0' || c > '9' {
+			return false
+		}
+	}
+	return true
+}
+
 // DiffItem is one difference between two JSON trees.
 type DiffItem struct {
 	Path string // JSON-pointer-like path
@@ -293,6 +321,14 @@ func DiffAll(a, b any) []DiffItem {
 func diffAll(a, b any, path, last string, out *[]DiffItem) {
 	if len(*out) > 200 {
 		return
+	}
+	if _, ok := a.(json.Number); ok {
+		if _, ok := b.(json.Number); ok {
+			if Diff(a, b, "") != "" {
+				*out = append(*out, DiffItem{path, last, "changed", a, b})
+			}
+			return
+		}
 	}
 	if fa, ok := Float64(a); ok {
 		if fb, ok2 := Float64(b); !ok2 || fa != fb {
